@@ -385,6 +385,116 @@ def run(ctx):
         for f in ("name", "position", "flag"):
             ctx.check("bam.fancy", tables.values_equal(tables.column(a, f), tables.column(b, f)), "bam/lazy!=eager:fancy", "BAM fancy-indexed field %s differs" % f, {"file": case["file"], "idx": idx.tolist()}, (case["file"], f, tuple(idx.tolist())))
 
+    BAM_FIELDS = ["chromosome", "name", "flag", "position", "mapq", "cigar_op", "cigar_length", "sequence", "quality"]
+
+    def bam_program(case):
+        """generated BAM files (spec-level encoder R2): the same program of selections, concatenations and field reads on the lazily and on the
+        eagerly read table; fields are compared between the modes at observed steps (never before, for blind programs) and names/positions with R2"""
+        from bnpmon.models import bam as R2
+        from bnpmon.workloads.C16 import gen_record
+        r = random.Random(case["seed"])
+        n_refs = r.choice([1, 2, 3])
+        refs = [("chr%d" % (i + 1), 10 ** 6) for i in range(n_refs)]
+        n = r.randint(2, ctx.pick(8, 20))
+        equal_size = r.random() < 0.4          # short-read layout: every record has the same number of bytes
+        recs = [gen_record(r, n_refs) for _ in range(n)]
+        if equal_size:
+            base = recs[0]
+            recs = [dict(base, name="".join(r.choice("abcxyz0123") for _ in base["name"]), pos=r.randint(0, 10 ** 5), mapq=r.randint(0, 60),
+                         seq="".join(r.choice("ACGT") for _ in base["seq"]), qual=None if base["qual"] is None else [r.randint(0, 60) for _ in base["seq"]]) for _ in range(n)]
+        data, _ = R2.encode_bam(refs, recs, [])
+        path = ctx.path("c05.bam")
+        with open(path, "wb") as f:
+            f.write(data)
+        L = bnp.open(path, lazy=True).read()
+        E = bnp.open(path, lazy=False).read()
+        state = list(range(n))
+        blind = r.random() < 0.4
+        history = []
+        wit0 = {"format": "bam", "seed": case["seed"], "n": n, "equal_size_records": equal_size, "blind": blind}
+
+        def observe(fields, when):
+            for f in fields:
+                res = both(lambda: tables.column(L, f), lambda: tables.column(E, f))
+                nt = (data, repr(history), f) if len(state) >= 2 else None
+                if res[0] == "raised-one":
+                    et, site = exc_site(res[2])
+                    ctx.check("bam.program", False, "bam/fails-in-%s-mode-only:%s@%s" % (res[1], et, site), "BAM field %s raised %s in %s mode only" % (f, et, res[1]), dict(wit0, program=list(history), error=str(res[2])[:200]), nt)
+                    return False
+                if res[0] == "raised-both":
+                    ctx.observe("bam-field-raised-in-both-modes:%s" % type(res[1]).__name__)
+                    return False
+                if not ctx.check("bam.program", tables.values_equal(res[1], res[2]), "bam/lazy!=eager:%s%s" % ("field-after-concatenate" if any(h[0] == "concat" for h in history) else "field", ""),
+                                 "BAM field %s differs between the modes %s: lazy %r eager %r" % (f, when, str(res[1])[:120], str(res[2])[:120]), dict(wit0, program=list(history), field=f), nt):
+                    return False
+                if f == "name":
+                    want = [recs[i]["name"] for i in state]
+                    if not ctx.check("bam.program", list(res[1]) == want, "bam/names-differ-from-the-file", "names %r, the selected records are %r" % (list(res[1])[:6], want[:6]), dict(wit0, program=list(history)), nt):
+                        return False
+            return True
+
+        for _ in range(r.randint(1, 5)):
+            k = r.random()
+            m = len(state)
+            if k < 0.45 and m:
+                kind = r.choice(["slice", "mask", "fancy", "list"])
+                if kind == "slice":
+                    a = r.randint(0, m - 1); b = r.randint(a + 1, m); st = r.choice([1, 1, 2, -1])
+                    idx = slice(a, b, st) if st > 0 else slice(b - 1, a - 1 if a else None, -1)
+                    newstate = state[idx]
+                elif kind == "mask":
+                    mk = [r.random() < 0.6 for _ in range(m)]
+                    idx = np.array(mk, dtype=bool)
+                    newstate = [x for x, keep in zip(state, mk) if keep]
+                else:
+                    ii = [r.randrange(m) for _ in range(r.randint(1, 5))]
+                    idx = np.array(ii, dtype=int) if kind == "fancy" else ii
+                    newstate = [state[i] for i in ii]
+                res = both(lambda: L[idx], lambda: E[idx])
+                history.append(["index", kind, str(idx)[:60]])
+            elif k < 0.8 and m:
+                # concatenate with a selection of the table as it is now, in either order, or with itself
+                ii = sorted(r.sample(range(m), r.randint(1, m))) if r.random() < 0.6 else [r.randrange(m) for _ in range(r.randint(1, 3))]
+                sel_first = r.random() < 0.5
+                newstate = [state[i] for i in ii] + state if sel_first else state + [state[i] for i in ii]
+                arr = np.array(ii, dtype=int)
+                res = both(lambda: np.concatenate([L[arr], L] if sel_first else [L, L[arr]]), lambda: np.concatenate([E[arr], E] if sel_first else [E, E[arr]]))
+                history.append(["concat", "selection-first" if sel_first else "selection-last", ii])
+            else:
+                fs = r.sample(BAM_FIELDS, r.randint(1, 2))
+                history.append(["field", fs])
+                if not blind:
+                    if not observe(fs, "after %r" % (history[-2:],)):
+                        return
+                    continue
+                for f in fs:
+                    both(lambda: getattr(L, f), lambda: getattr(E, f))       # touched, not looked at
+                ctx.count("blind_steps")
+                continue
+            if res[0] == "raised-one":
+                et, site = exc_site(res[2])
+                ctx.check("bam.program", False, "bam/fails-in-%s-mode-only:%s@%s" % (res[1], et, site), "BAM step %r raised %s in %s mode only" % (history[-1], et, res[1]), dict(wit0, program=list(history), error=str(res[2])[:200]), None)
+                return
+            if res[0] == "raised-both":
+                ctx.observe("bam-step-raised-in-both-modes:%s" % type(res[1]).__name__)
+                return
+            L, E = res[1], res[2]
+            state = newstate
+            if not blind and r.random() < 0.5:
+                if not observe(r.sample(BAM_FIELDS, 2), "after %r" % (history[-1],)):
+                    return
+            elif blind:
+                ctx.count("blind_steps")
+        ll = both(lambda: len(L), lambda: len(E))
+        if ll[0] == "ok":
+            ctx.check("bam.program", ll[1] == ll[2] == len(state), "bam/lazy!=eager:len", "lengths %r / %r, %d records selected" % (ll[1], ll[2], len(state)), dict(wit0, program=list(history)), None)
+        observe(r.sample(BAM_FIELDS, len(BAM_FIELDS)), "at the end of %r" % (history,))
+        ctx.count("bam_programs")
+
+    for i in range(ctx.share(ctx.pick(480, 6000))):
+        ctx.run_case(bam_program, {"seed": rng.randrange(2 ** 40)})
+    ctx.floor("bam_programs", ctx.pick(10, 100))
+
     total = ctx.share(ctx.pick(300 * len(C05_FORMATS), 5000 * len(C05_FORMATS)))
     for i in range(total):
         ctx.run_case(program, {"fmt": C05_FORMATS[i % len(C05_FORMATS)], "seed": rng.randrange(2 ** 40), "chunked": rng.random() < 0.35})
